@@ -610,10 +610,12 @@ def fam_single_op(rng, kind=None):
             y = elementwise(net, rng, kind.upper(), x, b, rng.choice(["NONE", "RELU"]) if kind in ("add", "sub", "mul") else "NONE")
         elif kind == "add_bcast":
             b = _inp(net, rng, rng.choice([[1, 1, 1, c], [1, 1, w, c], [1, h, 1, 1], [1, 1, 1, 1]]), dt)
-            y = elementwise(net, rng, rng.choice(["ADD", "MUL", "SUB"]), x, b, out_shape=[1, h, w, c])
+            a_, b_ = (x, b) if rng.random() < 0.5 else (b, x)      # the broadcast operand first: reversed operands on the NPU
+            y = elementwise(net, rng, rng.choice(["ADD", "MUL", "SUB"]), a_, b_, out_shape=[1, h, w, c])
         elif kind == "mul_scalar":
             b = const_like(net, rng, [1, 1, 1, 1] if rng.random() < 0.5 else [], dt)
-            y = elementwise(net, rng, rng.choice(["ADD", "MUL", "SUB"]), x, b, out_shape=[1, h, w, c])
+            a_, b_ = (x, b) if rng.random() < 0.5 else (b, x)
+            y = elementwise(net, rng, rng.choice(["ADD", "MUL", "SUB"]), a_, b_, out_shape=[1, h, w, c])
         elif kind == "logistic":
             y = unary(net, rng, "LOGISTIC", x)
         elif kind == "tanh":
